@@ -243,19 +243,19 @@ h!(c12_m_sleep, 5, history_h(V::new(), 1, 0, 12, true));
 h!(c12_m_wake, 5, history_h(V::new(), 1, 1, 12, true));
 //@ props=C12,C13 inst="Display::set_pixel" bounds="same" timeout=900 mem=6
 h!(c12_m_set_pixel, 5, history_h(V::new(), 1, 2, 12, true));
-//@ props=C12,C13 inst="DrawTarget::fill_solid" bounds="same" timeout=900 mem=6
+//@ props=C12 inst="DrawTarget::fill_solid" bounds="same" timeout=900 mem=6
 h!(c12_m_fill_solid, 5, history_h(V::new(), 1, 3, 12, true));
 //@ props=C12,C13,C10 inst="Display::set_orientation" bounds="same; recovery = a later successful set_orientation, then drawing" timeout=900 mem=6
 h!(c12_m_set_orientation, 5, history_h(V::new(), 1, 4, 12, true));
-//@ props=C12,C13 inst="Display::set_vertical_scroll_region + set_vertical_scroll_offset" bounds="same" timeout=900 mem=6
+//@ props=C12 inst="Display::set_vertical_scroll_region + set_vertical_scroll_offset" bounds="same" timeout=900 mem=6
 h!(c12_m_scroll, 5, history_h(V::new(), 1, 5, 12, true));
-//@ props=C12,C13 inst="Display::set_tearing_effect" bounds="same" timeout=900 mem=6
+//@ props=C12 inst="Display::set_tearing_effect" bounds="same" timeout=900 mem=6
 h!(c12_m_tearing, 5, history_h(V::new(), 1, 6, 12, true));
-//@ props=C12,C13 inst="Display::set_pixels (2 colours)" bounds="same" timeout=900 mem=6
+//@ props=C12 inst="Display::set_pixels (2 colours)" bounds="same" timeout=900 mem=6
 h!(c12_m_set_pixels, 5, history_h(V::new(), 1, 7, 12, true));
-//@ props=C12,C13 inst="DrawTarget::fill_contiguous (2x1 rectangle, <= 2 colours)" bounds="same" timeout=1200 mem=8
+//@ props=C12 inst="DrawTarget::fill_contiguous (2x1 rectangle, <= 2 colours)" bounds="same" timeout=1200 mem=8
 h!(c12_m_fill_contiguous, 6, history_h(V::new(), 1, 8, 12, true));
-//@ props=C12,C13 cfg=smallcap required=no inst="DrawTarget::draw_iter (<= 1 pixel, any i32 coordinates; capacities 4/8 under hook H4)" bounds="same" timeout=1800 mem=16
+//@ props=C12 cfg=smallcap required=no inst="DrawTarget::draw_iter (<= 1 pixel, any i32 coordinates; capacities 4/8 under hook H4)" bounds="same" timeout=1800 mem=16
 h!(c12_m_draw_iter, 5, history_h(V::new(), 1, 9, 12, true));
-//@ props=C12,C13 inst="DrawTarget::clear" bounds="same" timeout=900 mem=6
+//@ props=C12 inst="DrawTarget::clear" bounds="same" timeout=900 mem=6
 h!(c12_m_clear, 5, history_h(V::new(), 1, 10, 12, true));
